@@ -288,6 +288,73 @@ func InlineTarget(call *ssa.Call) *ssa.Function {
 	return g
 }
 
+// InlineClosures switches the splicing of directly called local closures (see closureTarget).
+var InlineClosures = true
+
+// closureTarget gives, for a direct call of a function literal created in fn itself (called in place, or kept
+// in a local variable assigned once), the literal's function and the instruction that created it, when the
+// literal only reads the variables it captures. Such a closure is a local helper: its body is spliced into
+// the paths of fn exactly like a helper function's, so that a rule sees the same facts whether a piece of
+// code is written inline, as a local closure, or as a separate function.
+func closureTarget(call *ssa.Call, fn *ssa.Function) (*ssa.Function, *ssa.MakeClosure) {
+	if !InlineClosures || call.Call.IsInvoke() || Inlineable == nil {
+		return nil, nil
+	}
+	v := call.Call.Value
+	if u, ok := v.(*ssa.UnOp); ok && u.Op == token.MUL {
+		a, ok := u.X.(*ssa.Alloc)
+		if !ok {
+			return nil, nil
+		}
+		var val ssa.Value
+		n := 0
+		for _, r := range *a.Referrers() {
+			switch r := r.(type) {
+			case *ssa.Store:
+				if r.Addr == ssa.Value(a) {
+					val = r.Val
+					n++
+				} else {
+					return nil, nil
+				}
+			case *ssa.UnOp, *ssa.DebugRef:
+			default:
+				return nil, nil // the variable escapes
+			}
+		}
+		if n != 1 {
+			return nil, nil
+		}
+		v = val
+	}
+	mc, ok := v.(*ssa.MakeClosure)
+	if !ok || mc.Parent() != fn {
+		return nil, nil
+	}
+	g := mc.Fn.(*ssa.Function)
+	if len(g.Blocks) == 0 || g.Recover != nil || g.Synthetic != "" || !InModule(g) {
+		return nil, nil
+	}
+	for k, fv := range g.FreeVars {
+		if k < len(mc.Bindings) {
+			if _, isCell := mc.Bindings[k].(*ssa.Alloc); isCell && mayWriteThrough(g, fv, 0) {
+				return nil, nil
+			}
+		}
+	}
+	for _, b := range g.Blocks {
+		for _, in := range b.Instrs {
+			if _, isDefer := in.(*ssa.Defer); isDefer {
+				return nil, nil
+			}
+		}
+	}
+	return g, mc
+}
+
+// InModule tells whether a function belongs to the analysed module (set by the loader).
+var InModule = func(*ssa.Function) bool { return false }
+
 // typeBinding maps the type parameters of a spliced generic body to the type arguments of the call.
 func typeBinding(call *ssa.Call, g *ssa.Function, outer map[*types.TypeParam]types.Type) map[*types.TypeParam]types.Type {
 	w, ok := call.Call.Value.(*ssa.Function)
@@ -320,6 +387,12 @@ type Ctx struct {
 	tag   string               // name prefix for loop-carried values and cells of an inlined helper
 	inst  int                  // activation number on the path (0: the root function)
 	tsub  map[*types.TypeParam]types.Type // type parameters of an inlined generic helper, bound to the caller's type arguments
+	// for a spliced closure: the activation that created and called it, and the call position there, so that
+	// reads of captured variables see the value the variable holds at the call
+	outer   *Ctx
+	outerB  *ssa.BasicBlock
+	outerI  int
+	fvCells map[*ssa.FreeVar]*ssa.Alloc
 }
 
 func newCtx(fi *FuncInfo) *Ctx {
@@ -339,6 +412,7 @@ func (c *Ctx) clone() *Ctx {
 		n.memo[k] = v
 	}
 	n.bind, n.tag, n.inst, n.tsub = c.bind, c.tag, c.inst, c.tsub
+	n.outer, n.outerB, n.outerI, n.fvCells = c.outer, c.outerB, c.outerI, c.fvCells
 	return n
 }
 
@@ -762,6 +836,13 @@ func (c *Ctx) phiTerm(v *ssa.Phi) *Term {
 
 // loadTerm evaluates *addr with store-forwarding along the path for local allocs.
 func (c *Ctx) loadTerm(v *ssa.UnOp) *Term {
+	if fv, ok := v.X.(*ssa.FreeVar); ok && c.outer != nil && !c.detached {
+		if cell := c.fvCells[fv]; cell != nil {
+			if st := c.outer.lastStoreAt(c.outerB, c.outerI, c.outer.term(cell).String(), cell); st != nil {
+				return c.outer.term(st.Val)
+			}
+		}
+	}
 	addr := c.term(v.X)
 	if root := allocRoot(v.X); root != nil && !c.detached {
 		if st := c.lastStore(v, addr.String(), root); st != nil {
@@ -882,6 +963,18 @@ func allocRoot(v ssa.Value) *ssa.Alloc {
 // call that receives the alloc or a closure capturing it).
 func (c *Ctx) lastStore(load *ssa.UnOp, addr string, root *ssa.Alloc) *ssa.Store {
 	lb := load.Block()
+	end := len(lb.Instrs)
+	for k, in := range lb.Instrs {
+		if in == ssa.Instruction(load) {
+			end = k
+			break
+		}
+	}
+	return c.lastStoreAt(lb, end, addr, root)
+}
+
+// lastStoreAt is lastStore for the program point before instruction end of block lb.
+func (c *Ctx) lastStoreAt(lb *ssa.BasicBlock, end0 int, addr string, root *ssa.Alloc) *ssa.Store {
 	bi, ok := c.pos[lb]
 	if !ok {
 		return nil
@@ -899,12 +992,7 @@ func (c *Ctx) lastStore(load *ssa.UnOp, addr string, root *ssa.Alloc) *ssa.Store
 		instrs := b.Instrs
 		end := len(instrs)
 		if i == bi {
-			for k, in := range instrs {
-				if in == ssa.Instruction(load) {
-					end = k
-					break
-				}
-			}
+			end = end0
 		}
 		for k := end - 1; k >= 0; k-- {
 			if st, ok := instrs[k].(*ssa.Store); ok {
@@ -975,6 +1063,8 @@ func (f *frame) active(g *ssa.Function) bool {
 type walkState struct {
 	blocks []*ssa.BasicBlock
 	facts  []Fact
+	canon  []Fact           // the facts with interface getters resolved on values whose dynamic type the path knows
+	dyn    map[string]*Term // rendering of a value -> the successful assertion of its concrete type on this path
 	steps  []step
 	done   []*Ctx // contexts of helper activations that already returned
 	ninst  int    // helper activations started so far
@@ -1055,11 +1145,19 @@ func Enumerate(fn *ssa.Function) ([]*Path, error) {
 				continue
 			}
 			g := InlineTarget(call)
+			var mc *ssa.MakeClosure
+			if g == nil {
+				g, mc = closureTarget(call, fr.fn)
+			}
 			if g == nil || fr.depth >= MaxInlineDepth || fr.active(g) {
 				continue
 			}
 			st2 := st.withStep(b, idx, i, fr.ctx.inst)
 			child := &frame{fn: g, ctx: newCtx(Info(g)), parent: fr, call: call, contBlock: b, contIdx: i + 1, depth: fr.depth + 1}
+			if mc != nil {
+				child.ctx.outer, child.ctx.outerB, child.ctx.outerI = fr.ctx, b, i
+				child.ctx.fvCells = map[*ssa.FreeVar]*ssa.Alloc{}
+			}
 			st2.ninst++
 			child.ctx.inst = st2.ninst
 			nth := 1
@@ -1077,6 +1175,16 @@ func Enumerate(fn *ssa.Function) ([]*Path, error) {
 			for k, prm := range g.Params {
 				if k < len(call.Call.Args) {
 					child.ctx.bind[prm] = fr.ctx.term(call.Call.Args[k])
+				}
+			}
+			if mc != nil {
+				for k, fv := range g.FreeVars {
+					if k < len(mc.Bindings) {
+						child.ctx.bind[fv] = fr.ctx.term(mc.Bindings[k])
+						if cell, ok := mc.Bindings[k].(*ssa.Alloc); ok {
+							child.ctx.fvCells[fv] = cell
+						}
+					}
 				}
 			}
 			enter(child, g.Blocks[0], nil, st2)
@@ -1129,6 +1237,9 @@ func Enumerate(fn *ssa.Function) ([]*Path, error) {
 				}
 				st2 := st
 				st2.facts = append(append([]Fact(nil), st.facts...), f)
+				if !st2.addCanon(f) {
+					continue // contradictory once the dynamic type of a value is taken into account
+				}
 				enter(fr, b.Succs[k], b, st2)
 			}
 		default:
@@ -1141,6 +1252,122 @@ func Enumerate(fn *ssa.Function) ([]*Path, error) {
 	}
 	return out, nil
 }
+
+// addCanon records fact f (already appended to st.facts) in canonical form and tells whether the facts are
+// still consistent. A successful assertion `s, ok := v.(C)` to a concrete type fixes the dynamic type of v on
+// the path: interface calls v.M() whose method on C is a plain getter then denote the field of s, so
+// `v.Kind() == ">"` and `s.kind == "=="` contradict each other.
+func (st *walkState) addCanon(f Fact) bool {
+	if f.Pol && isConcreteAssertOK(f.Atom) {
+		ta := f.Atom.Args[0]
+		key := ta.Args[0].String()
+		if _, have := st.dyn[key]; !have {
+			nd := map[string]*Term{}
+			for k, v := range st.dyn {
+				nd[k] = v
+			}
+			nd[key] = ta
+			st.dyn = nd
+			// the earlier facts are read again with the new knowledge
+			canon := make([]Fact, 0, len(st.facts))
+			for _, g := range st.facts {
+				cg := Fact{Atom: devirt(g.Atom, st.dyn), Pol: g.Pol, Block: g.Block}
+				if contradicts(canon, cg) {
+					return false
+				}
+				canon = append(canon, cg)
+			}
+			st.canon = canon
+			return true
+		}
+	}
+	cf := f
+	if len(st.dyn) > 0 {
+		cf.Atom = devirt(f.Atom, st.dyn)
+	}
+	if contradicts(st.canon, cf) {
+		return false
+	}
+	st.canon = append(append([]Fact(nil), st.canon...), cf)
+	return true
+}
+
+// devirt rewrites interface calls on values of known dynamic type whose method is a plain getter.
+func devirt(t *Term, dyn map[string]*Term) *Term {
+	if t == nil || len(dyn) == 0 {
+		return t
+	}
+	args := make([]*Term, len(t.Args))
+	changed := false
+	for i, a := range t.Args {
+		args[i] = devirt(a, dyn)
+		changed = changed || args[i] != a
+	}
+	n := t
+	if changed {
+		n = simplify(&Term{Op: t.Op, Name: t.Name, Args: args, Val: t.Val, Bind: t.Bind})
+	}
+	if n.Op != "invoke" || len(n.Args) != 1 {
+		return n
+	}
+	ta, ok := dyn[n.Args[0].String()]
+	if !ok {
+		return n
+	}
+	call, ok1 := n.Val.(*ssa.Call)
+	tav, ok2 := ta.Val.(*ssa.TypeAssert)
+	if !ok1 || !ok2 || !call.Call.IsInvoke() {
+		return n
+	}
+	prog := tav.Parent().Prog
+	sel := prog.MethodSets.MethodSet(tav.AssertedType).Lookup(call.Call.Method.Pkg(), call.Call.Method.Name())
+	if sel == nil {
+		return n
+	}
+	m := prog.MethodValue(sel)
+	fld := getterField(m)
+	if fld == "" {
+		return n
+	}
+	return simplify(&Term{Op: "field", Name: fld, Val: n.Val, Args: []*Term{{Op: "extract", Name: "#0", Args: []*Term{ta}, Val: ta.Val}}})
+}
+
+// getterField returns the field name when m is `func (r T) M() F { return r.f }`.
+func getterField(m *ssa.Function) string {
+	if m == nil || len(m.Blocks) != 1 || len(m.Params) != 1 {
+		return ""
+	}
+	ins := m.Blocks[0].Instrs
+	ret, ok := ins[len(ins)-1].(*ssa.Return)
+	if !ok || len(ret.Results) != 1 {
+		return ""
+	}
+	for _, in := range ins {
+		switch in := in.(type) {
+		case *ssa.Call, *ssa.MapUpdate, *ssa.Defer, *ssa.Go, *ssa.Send:
+			return ""
+		case *ssa.Store:
+			if allocRoot(in.Addr) == nil {
+				return "" // only the spill of the receiver into a local cell is a store a getter may have
+			}
+		}
+	}
+	if f, ok := getterCache[m]; ok {
+		return f
+	}
+	getterCache[m] = ""
+	ps, err := Enumerate(m)
+	if err != nil || len(ps) != 1 || ps[0].End != EndReturn {
+		return ""
+	}
+	t := ps[0].Results()[0]
+	if t.Op == "field" && len(t.Args) == 1 && t.Args[0].Op == "param" && t.Args[0].Name == "recv" {
+		getterCache[m] = t.Name
+	}
+	return getterCache[m]
+}
+
+var getterCache = map[*ssa.Function]string{}
 
 // staticAtom evaluates atoms whose value does not depend on the input.
 func staticAtom(atom *Term) (val bool, known bool) {
@@ -1164,7 +1391,7 @@ func staticAtom(atom *Term) (val bool, known bool) {
 		return false, false
 	}
 	switch {
-	case x.Op == "call" && NonNilErrorCalls[x.Name]:
+	case x.Op == "call" && (NonNilErrorCalls[x.Name] || neverNilResult(x)):
 		return false, true
 	case x.Op == "load" && x.Args[0].Op == "global" && x.Val != nil && types.Identical(x.Val.Type(), types.Universe.Lookup("error").Type()):
 		return false, true // package-level sentinel error
@@ -1172,6 +1399,49 @@ func staticAtom(atom *Term) (val bool, known bool) {
 		return false, true // address of a local cell is never nil
 	}
 	return false, false
+}
+
+var neverNilCache = map[*ssa.Function]bool{}
+
+// neverNilResult tells whether the call term is a call of a module function with a single interface result
+// that, on every return, boxes a concrete non-nilable value or a freshly allocated object (error constructors
+// such as `func ErrX(path string) error { return errWithPath{...} }`): its result is never nil.
+func neverNilResult(t *Term) bool {
+	call, ok := t.Val.(*ssa.Call)
+	if !ok {
+		return false
+	}
+	g := StaticCallee(call)
+	if g == nil || len(g.Blocks) == 0 || !InModule(g) || g.Signature.Results().Len() != 1 {
+		return false
+	}
+	if v, ok := neverNilCache[g]; ok {
+		return v
+	}
+	neverNilCache[g] = false
+	if _, isIface := g.Signature.Results().At(0).Type().Underlying().(*types.Interface); !isIface {
+		return false
+	}
+	n := 0
+	for _, b := range g.Blocks {
+		ret, ok := b.Instrs[len(b.Instrs)-1].(*ssa.Return)
+		if !ok {
+			continue
+		}
+		n++
+		mi, ok := ret.Results[0].(*ssa.MakeInterface)
+		if !ok {
+			return false
+		}
+		if _, isAlloc := mi.X.(*ssa.Alloc); isAlloc {
+			continue
+		}
+		if isNilable(mi.X.Type()) {
+			return false
+		}
+	}
+	neverNilCache[g] = n > 0
+	return n > 0
 }
 
 // contradicts tells whether adding f to facts is syntactically contradictory:
